@@ -1,10 +1,12 @@
 import SarpyModel.Drivers.Slice
+import SarpyModel.Drivers.Scatter
 namespace Sarpy.Drivers
 
 def step (line : String) : String :=
   let toks := (line.trimAscii.toString.splitOn " ").filter (· ≠ "")
   match toks with
   | "slice" :: rest => (sliceStep rest).getD "bad-op"
+  | "scatter" :: rest => (scatterStep rest).getD "bad-op"
   | _ => "bad-op"
 
 partial def loop (h : IO.FS.Stream) : IO Unit := do
